@@ -253,7 +253,7 @@ theorem textOrTag_text_spec (pf : Bytes → Option UInt64) (ef fuel : Nat) (untl
 
 /-! ## the lexer side: where `lexText` cuts a text run
 
-  `lexTextLoop l lastChar` reads one rune after the other (`lastChar` = the rune read before, 0 at
+  `lexTextLoop l lastChar` reads one rune after the other (`lastChar` = the rune read before, `noChar` at
   the start of the run).  The theorems below make its decision rule explicit:
 
   * `lexTextLoop_some` — one iteration, as a plain case distinction on the rune read;
@@ -262,7 +262,7 @@ theorem textOrTag_text_spec (pf : Bytes → Option UInt64) (ef fuel : Nat) (untl
     the end of input and `/`; a `/` unless it is followed by `*`, or by a second `/` while the
     text before it is empty-or-whitespace (`LineStart`).  In particular a `//` that follows a
     non-space character stays in the text — and so does a `//` right after a block comment
-    (`a /* c *///b`: there `lastChar = 0` and the last byte sent is `/`), the case the seeded
+    (`a /* c *///b`: there `lastChar = noChar` and the last byte sent is `/`), the case the seeded
     change C15-5 broke;
   * `PlainRun` / `lexTextLoop_run` — hence the loop skips a whole run of such runes at once: the
     text run is cut at the FIRST rune at which one of the cut conditions holds;
@@ -316,11 +316,11 @@ theorem lexTextLoop_some {l l1 : Lexer} {lc r : Int} (hn : l.next = some (r, l1)
         | none => none
         | some (r2, l2) =>
           if r2 = 47 then
-            let lce : Int := if lc = 0 ∧ l2.lastEmit.val ≠ [] then ((l2.lastEmit.val.getLast?.getD 0).toNat : Int) else lc
-            if lce = 0 ∨ isSpaceEOL lce = true then
+            let lce : Int := if lc = noChar ∧ l2.lastEmit.val ≠ [] then ((l2.lastEmit.val.getLast?.getD 0).toNat : Int) else lc
+            if lce = noChar ∨ isSpaceEOL lce = true then
               match maybeEmitText l2 3 with
               | none => none
-              | some l3 => lexLineComment (if lc ≠ 0 then { l3 with start := l3.start + 1 } else l3)
+              | some l3 => lexLineComment (if lc ≠ noChar then { l3 with start := l3.start + 1 } else l3)
             else lexTextLoop l2.backup r
           else if r2 = 42 then
             match maybeEmitText l2 2 with
@@ -400,12 +400,12 @@ theorem next_lastEmit {l l' : Lexer} {r : Int} (h : l.next = some (r, l')) :
       exact ⟨rfl, rfl, rfl, rfl⟩
 
 /-- `//` begins a line comment only here: the text before it is empty — nothing read in this
-    run (`lastChar = 0`) and nothing sent before, or what was sent last ends with whitespace —
-    or the character before it is whitespace.  (`lastChar = 0` with a last item: the byte that
+    run (`lastChar = noChar`) and nothing sent before, or what was sent last ends with whitespace —
+    or the character before it is whitespace.  (`lastChar = noChar` with a last item: the byte that
     ended that item decides.) -/
 def LineStart (lastChar : Int) (lastEmit : Item) : Prop :=
-  (if lastChar = 0 ∧ lastEmit.val ≠ [] then ((lastEmit.val.getLast?.getD 0).toNat : Int) else lastChar) = 0 ∨
-  isSpaceEOL (if lastChar = 0 ∧ lastEmit.val ≠ [] then ((lastEmit.val.getLast?.getD 0).toNat : Int) else lastChar) = true
+  (if lastChar = noChar ∧ lastEmit.val ≠ [] then ((lastEmit.val.getLast?.getD 0).toNat : Int) else lastChar) = noChar ∨
+  isSpaceEOL (if lastChar = noChar ∧ lastEmit.val ≠ [] then ((lastEmit.val.getLast?.getD 0).toNat : Int) else lastChar) = true
 
 /-- a rune other than `/`, `{`, `}` and the end of input is consumed; nothing is sent -/
 theorem lexTextLoop_plain {l l1 : Lexer} {lc r : Int} (hn : l.next = some (r, l1))
@@ -629,7 +629,7 @@ theorem lexText_cut_line {l l' l1 l2 : Lexer} {lc lc' : Int} (hrun : PlainRun l 
     (hn : l'.next = some (47, l1)) (hn2 : l1.next = some (47, l2)) (hls : LineStart lc' l.lastEmit)
     (h0 : 0 ≤ l.start) (h1 : l.start ≤ l.pos) :
     ∃ l3 : Lexer, l3.items.toList = l.items.toList ++ textItems l.input l.start (l'.pos - 1) ∧ l3.pos = l2.pos ∧
-      lexTextLoop l lc = lexLineComment (if lc' ≠ 0 then { l3 with start := l3.start + 1 } else l3) := by
+      lexTextLoop l lc = lexLineComment (if lc' ≠ noChar then { l3 with start := l3.start + 1 } else l3) := by
   obtain ⟨he, hi, hs, hin, hle⟩ := lexTextLoop_run hrun
   have hple := (hrun.pos_le (by omega)).1
   have hf := (next_facts hn (by omega)).2.2
@@ -712,7 +712,7 @@ theorem lexText_plain_then_open (pre post : Bytes)
       lf.start = pre.length := by
   have hlen : (initLexer (pre ++ 123 :: post)).len = (pre.length + 1 + post.length : Nat) := by
     simp [initLexer, Lexer.len]; omega
-  obtain ⟨l', lc', hr, hp⟩ := plainRun_ascii pre.length (initLexer (pre ++ 123 :: post)) 0 (by simp [initLexer])
+  obtain ⟨l', lc', hr, hp⟩ := plainRun_ascii pre.length (initLexer (pre ++ 123 :: post)) noChar (by simp [initLexer])
     (by rw [hlen]; simp [initLexer]; omega)
     (by
       intro i hi
@@ -823,7 +823,7 @@ theorem lexAll_of_lexText_end {input : Bytes} {lf : Lexer}
 theorem lexAll_plain_text (txt : Bytes) (htxt : ∀ b ∈ txt, b.toNat < 128 ∧ b ≠ 47 ∧ b ≠ 123 ∧ b ≠ 125) :
     lexAll txt false = .items (textItems txt.toArray 0 txt.length ++ [⟨.tEOF, txt.length, []⟩]) := by
   have hlen : (initLexer txt).len = (txt.length : Nat) := by simp [initLexer, Lexer.len]
-  obtain ⟨l', lc', hr, hp⟩ := plainRun_ascii txt.length (initLexer txt) 0 (by simp [initLexer])
+  obtain ⟨l', lc', hr, hp⟩ := plainRun_ascii txt.length (initLexer txt) noChar (by simp [initLexer])
     (by rw [hlen]; simp [initLexer])
     (by
       intro i hi
@@ -854,7 +854,7 @@ theorem lex_slashes_after_comment :
       .items [⟨.tText, 2, [97, 32]⟩, ⟨.tComment, 9, [47, 42, 32, 99, 32, 42, 47]⟩,
         ⟨.tText, 12, [47, 47, 98]⟩, ⟨.tEOF, 12, []⟩] := by
   simp [lexAll, Lex.fuelFor, run, step, lexText, lexTextLoop, lexBlockComment, Lexer.next, initLexer, Lexer.len,
-    decodeRune, byteAt, maybeEmitText, Lexer.backup, eof, Lexer.emit, sliceOf, Lexer.addPos, allSpaceWithNewline,
+    decodeRune, byteAt, maybeEmitText, Lexer.backup, eof, noChar, Lexer.emit, sliceOf, Lexer.addPos, allSpaceWithNewline,
     allSpaceLoop, Lex.isSpaceEOL, Lex.isSpace, Lex.isEndOfLine]
 
 /-- `a/**/b`: `/**/` is an empty block comment (before /repo 73e5662 it began a soydoc comment and
@@ -863,7 +863,7 @@ theorem lex_empty_block_comment :
     lexAll [97, 47, 42, 42, 47, 98] false =
       .items [⟨.tText, 1, [97]⟩, ⟨.tComment, 5, [47, 42, 42, 47]⟩, ⟨.tText, 6, [98]⟩, ⟨.tEOF, 6, []⟩] := by
   simp [lexAll, Lex.fuelFor, run, step, lexText, lexTextLoop, Lexer.next, Lexer.peek, initLexer, Lexer.len,
-    decodeRune, byteAt, maybeEmitText, Lexer.backup, eof, Lexer.emit, sliceOf, Lexer.addPos, allSpaceWithNewline,
+    decodeRune, byteAt, maybeEmitText, Lexer.backup, eof, noChar, Lexer.emit, sliceOf, Lexer.addPos, allSpaceWithNewline,
     allSpaceLoop, Lex.isSpaceEOL, Lex.isSpace, Lex.isEndOfLine]
 
 /-- `a //b`: whitespace before `//` — a line comment; the Text item is `a` without the space -/
@@ -871,14 +871,22 @@ theorem lex_line_comment_after_space :
     lexAll [97, 32, 47, 47, 98] false =
       .items [⟨.tText, 1, [97]⟩, ⟨.tComment, 5, [47, 47, 98]⟩, ⟨.tEOF, 5, []⟩] := by
   simp [lexAll, Lex.fuelFor, run, step, lexText, lexTextLoop, lexLineComment, scanWhile, Lexer.next, initLexer, Lexer.len,
-    decodeRune, byteAt, maybeEmitText, Lexer.backup, eof, Lexer.emit, sliceOf, Lexer.addPos, allSpaceWithNewline,
+    decodeRune, byteAt, maybeEmitText, Lexer.backup, eof, noChar, Lexer.emit, sliceOf, Lexer.addPos, allSpaceWithNewline,
     allSpaceLoop, Lex.isSpaceEOL, Lex.isSpace, Lex.isEndOfLine]
 
 /-- `a//b`: no whitespace before `//` — it stays in the text -/
 theorem lex_slashes_in_text :
     lexAll [97, 47, 47, 98] false = .items [⟨.tText, 4, [97, 47, 47, 98]⟩, ⟨.tEOF, 4, []⟩] := by
   simp [lexAll, Lex.fuelFor, run, step, lexText, lexTextLoop, Lexer.next, initLexer, Lexer.len,
-    decodeRune, byteAt, maybeEmitText, Lexer.backup, eof, Lexer.emit, sliceOf, Lexer.addPos, allSpaceWithNewline,
+    decodeRune, byteAt, maybeEmitText, Lexer.backup, eof, noChar, Lexer.emit, sliceOf, Lexer.addPos, allSpaceWithNewline,
+    allSpaceLoop, Lex.isSpaceEOL, Lex.isSpace, Lex.isEndOfLine]
+
+/-- `a\x00//b`: a NUL before `//` is a character like any other — the text goes on (/repo 67d6dd1; before, the
+    scanner took the NUL for "nothing read yet" and `\x00//b` became a comment) -/
+theorem lex_nul_before_slashes :
+    lexAll [97, 0, 47, 47, 98] false = .items [⟨.tText, 5, [97, 0, 47, 47, 98]⟩, ⟨.tEOF, 5, []⟩] := by
+  simp [lexAll, Lex.fuelFor, run, step, lexText, lexTextLoop, Lexer.next, initLexer, Lexer.len,
+    decodeRune, byteAt, maybeEmitText, Lexer.backup, eof, noChar, Lexer.emit, sliceOf, Lexer.addPos, allSpaceWithNewline,
     allSpaceLoop, Lex.isSpaceEOL, Lex.isSpace, Lex.isEndOfLine]
 
 end lexer
